@@ -16,7 +16,7 @@ use std::process::{Command, Stdio};
 use std::sync::atomic::{AtomicU64, Ordering};
 use std::time::{Duration, Instant};
 
-pub const STALL_SECS: u64 = 20;
+pub const STALL_SECS: u64 = 10;
 pub const SLOTS: usize = 64;
 const WORDS: usize = 4; // block, case, seq, busy
 
@@ -202,6 +202,11 @@ pub fn supervise(prop: &str, cli: &Cli) {
     }
     let mut confirmed: Vec<(u64, u64, String, Value)> = Vec::new();
     for (b, c) in &suspects {
+        if !confirmed.is_empty() {
+            // one reproducible witness is enough to report; the exploration has to be re-run
+            // after a repair anyway
+            break;
+        }
         let _ = std::fs::remove_file(case_path(prop));
         let mut child = Command::new(&exe)
             .arg(tier.name())
@@ -235,7 +240,7 @@ pub fn supervise(prop: &str, cli: &Cli) {
             .and_then(|s| serde_json::from_str::<Value>(&s).ok())
             .unwrap_or(json!({"block": b, "case": c}));
         match fate {
-            None => confirmed.push((*b, *c, "does not terminate (killed after 60 s alone in a fresh process)".into(), desc)),
+            None => confirmed.push((*b, *c, "does not terminate (killed after 30 s alone in a fresh process)".into(), desc)),
             Some(st) if st.code() == Some(0) || st.code() == Some(1) => {}
             Some(st) => confirmed.push((*b, *c, format!("process death {st:?} (abort / stack overflow / allocation failure)"), desc)),
         }
